@@ -466,13 +466,15 @@ func c15Sample(p *ana.Prog, r *ana.Result) {
 		}
 		if ok {
 			g := ana.FindGate(p, fn, "j<k", func(c ana.Cmp, isCmp bool, _ ssa.Value) (bool, bool) {
-				if !isCmp || c.X != ssa.Value(j) {
+				if !isCmp {
 					return false, false
 				}
-				switch c.Op {
-				case token.LSS:
+				// j < k (or k > j) accepted when it holds; k <= j (or j >= k) when it does not
+				c = c.Orient(token.LSS)
+				switch {
+				case c.Op == token.LSS && c.X == ssa.Value(j):
 					return true, true
-				case token.GEQ:
+				case c.Op == token.LEQ && c.Y == ssa.Value(j):
 					return true, false
 				}
 				return false, false
